@@ -173,8 +173,8 @@ theorem rowOf_insertPairL_pairwise {n : Nat} {rows : Rows} {u v : Nat} (h : Inv 
       · rw [if_neg hiu]; exact (hI i hi).1
   · exact (hI i hi).1
 
-/-- **insert_inv**: one insertion preserves the invariant. -/
-theorem insert_inv {n : Nat} {rows : Rows} {u v : Nat} (h : Inv n rows) (hu : u < n) (hv : v < n)
+/-- one insertion preserves the invariant. -/
+theorem insertPairL_inv {n : Nat} {rows : Rows} {u v : Nat} (h : Inv n rows) (hu : u < n) (hv : v < n)
     (huv : u ≠ v) : Inv n (insertPairL rows u v) := by
   refine ⟨by rw [length_insertPairL]; exact h.1, fun i hi => ⟨rowOf_insertPairL_pairwise h hu hv huv i hi, ?_⟩⟩
   intro j hj
@@ -209,7 +209,7 @@ theorem foldl_stepLW_spec (acc : Nat × Nat → Bool) (n : Nat) (hacc : ∀ uv, 
     by_cases ha : acc uv = true
     · have hne := hacc uv ha
       have hI' : Inv n (stepLW acc rows uv) := by
-        unfold stepLW; rw [if_pos ha]; exact insert_inv hI huvn.1 huvn.2 hne
+        unfold stepLW; rw [if_pos ha]; exact insertPairL_inv hI huvn.1 huvn.2 hne
       obtain ⟨h1, h2⟩ := ih hcs' _ hI'
       refine ⟨h1, fun i j => ?_⟩
       rw [h2]
@@ -370,8 +370,8 @@ theorem dmag2_symm (vects : M3 ℚ) (px py pz : Bool) (p0 p1 : V3 ℚ) :
   · rintro ⟨s, hs, h⟩
     exact ⟨negShift s, negShift_mem hs, by rw [cand2_neg]; exact h⟩
 
-/-- **dist2_symm**: the distance test does not depend on the order of the two atoms. -/
-theorem dist2_symm (S : Sys) (u v : Nat) : dist2 S u v = dist2 S v u := dmag2_symm _ _ _ _ _ _
+/-- the distance test does not depend on the order of the two atoms. -/
+theorem dist2_comm (S : Sys) (u v : Nat) : dist2 S u v = dist2 S v u := dmag2_symm _ _ _ _ _ _
 
 
 /-! ## C. storage refinement -/
